@@ -593,7 +593,7 @@ class Function(ClassOrFunc):
                 try:
                     nested_children = element.children
                 except AttributeError:
-                    if element.value == 'yield':
+                    if element.type == 'keyword' and element.value == 'yield':
                         if element.parent.type == 'yield_expr':
                             yield element.parent
                         else:
